@@ -36,12 +36,20 @@ Definition bases (cfg : config) (parts : list string) (from_dir : path) : list p
   | _ => from_dir :: search cfg ++ [cwd cfg]
   end.
 
+(* a symbol import: parts = package ++ [symbol]; it is a bloch.* import only when the *package* starts with bloch
+   ('import bloch;' names the module bloch.bloch of the default package) *)
+Definition bases_sym (cfg : config) (parts : list string) (from_dir : path) : list path :=
+  match parts with
+  | "bloch" :: _ :: _ => search cfg ++ [from_dir; cwd cfg]
+  | _ => from_dir :: search cfg ++ [cwd cfg]
+  end.
+
 Fixpoint first_some {A B} (f : A -> option B) (l : list A) : option B :=
   match l with [] => None | x :: r => match f x with Some y => Some y | None => first_some f r end end.
 
 Definition resolve_sym (fs : fsys) (cfg : config) (parts : list string) (from_dir : path) : option path :=
   first_some (fun b => let c := b ++ rel_file parts in match lookup fs c with Some _ => Some c | None => None end)
-             (bases cfg parts from_dir).
+             (bases_sym cfg parts from_dir).
 
 (* direct .bloch children of a directory, in the order std::sort gives their path strings:
    same directory, so the order of the file names *)
